@@ -72,18 +72,26 @@ func (w *syWorld) settle() {
 	}
 }
 
-// refresh: rebuild the controller over listers that mirror the API.
-func (w *syWorld) refresh() {
+// refresh: the caches catch up with the API. The controller object lives on from round to round, as the process does (whatever it
+// remembers between reconciles stays remembered); only after a crash is it built anew (restart).
+func (w *syWorld) refresh(restart bool) {
 	set := w.apiSet()
-	setIdx := cache.NewIndexer(cache.MetaNamespaceKeyFunc, cache.Indexers{cache.NamespaceIndex: cache.MetaNamespaceIndexFunc})
-	if set != nil {
-		_ = setIdx.Add(set)
-	}
 	w.cached = set
 	w.cpods = w.apiPods()
-	pvcIdx := cache.NewIndexer(cache.MetaNamespaceKeyFunc, cache.Indexers{cache.NamespaceIndex: cache.MetaNamespaceIndexFunc})
-	w.ctl = sts.VerifNewController(w.kube, w.pc, appslisters.NewStatefulSetLister(setIdx), &orderedPodLister{w.cpods},
-		corelisters.NewPersistentVolumeClaimLister(pvcIdx), record.NewFakeRecorder(10000))
+	if restart || w.podLister == nil || w.setIdx == nil {
+		setIdx := cache.NewIndexer(cache.MetaNamespaceKeyFunc, cache.Indexers{cache.NamespaceIndex: cache.MetaNamespaceIndexFunc})
+		w.setIdx = setIdx
+		w.podLister = &orderedPodLister{w.cpods}
+		pvcIdx := cache.NewIndexer(cache.MetaNamespaceKeyFunc, cache.Indexers{cache.NamespaceIndex: cache.MetaNamespaceIndexFunc})
+		w.ctl = sts.VerifNewController(w.kube, w.pc, appslisters.NewStatefulSetLister(setIdx), w.podLister,
+			corelisters.NewPersistentVolumeClaimLister(pvcIdx), record.NewFakeRecorder(10000))
+	}
+	var objs []interface{}
+	if set != nil {
+		objs = append(objs, set)
+	}
+	_ = w.setIdx.Replace(objs, "")
+	w.podLister.pods = w.cpods
 }
 
 func podDigest(p *v1.Pod, selAll bool) string {
@@ -134,9 +142,11 @@ func runWorld(line string) string {
 	var parts []string
 	n := 0
 	silent := 0
+	crashed := false
 	for j := 1; j <= rounds; j++ {
 		w.settle()
-		w.refresh()
+		w.refresh(j == 1 || crashed)
+		crashed = false
 		w.log = nil
 		w.count = map[string]int{}
 		if j > 1 {
@@ -146,8 +156,9 @@ func runWorld(line string) string {
 		func() {
 			defer func() {
 				if r := recover(); r != nil {
-					if _, crashed := r.(syCrash); crashed {
+					if _, isCrash := r.(syCrash); isCrash {
 						out = "crash"
+						crashed = true
 					} else {
 						out = "panic"
 					}
